@@ -73,7 +73,12 @@ func runC15(c *Ctx, variant int) {
 		}
 	}
 	w.Stat(c15pKind[mv])
-	maxSize := w.Pick(1024, 300, 4096)
+	maxSize := w.Pick(1024, 300, 4096, 100, 17)
+	if mv == mvBigCtl && maxSize < 300 {
+		// a control frame of 126+ bytes under a smaller maximum is two violations in one frame (the decoder stops at
+		// the length): outside the single-violation quantifier
+		maxSize = 300
+	}
 	d.ws.SetMaxMessageSize(maxSize)
 	nMsgs := w.Range(1, c.Deep(5))
 	if variant >= 0 {
